@@ -246,18 +246,23 @@ def judge(spec, acc, fam, via_load=False, nontrivial=None):
                 ver, reason = V.verdict(dict(spec, index=(list(fidx[0]), list(fidx[1]))))
             ts = None
             acc.count("file_index_verdict_" + ver)
-        lerr = None
-        try:
-            ts2 = tskit.load(buf)
-        except Exception as e:  # noqa
-            lerr = e
-        if ver == V.VALID and lerr is not None:
-            acc.fail(fam + ":valid-rejected-by-load", repr(lerr), case)
-        elif ver == V.INVALID and lerr is None:
-            acc.fail(fam + ":invalid-loaded:" + reason.split(" (")[0], f"INVALID ({reason}) but tskit.load succeeded", case)
-        elif ver == V.VALID and ts is not None:
-            if not ts2.tables.equals(ts.tables, ignore_provenance=True):
-                acc.fail(fam + ":load-differs", "loaded tree sequence differs from tree_sequence()", case)
+        # every way of loading the whole object gives the same verdict (the lazy reader used with
+        # skip_reference_sequence must apply the same checks to the tables and the index it reads)
+        for lkw in ({}, {"skip_reference_sequence": True}):
+            tagl = "" if not lkw else ":skip_reference_sequence"
+            lerr = None
+            try:
+                ts2 = tskit.load(buf, **lkw)
+            except Exception as e:  # noqa
+                lerr = e
+            if ver == V.VALID and lerr is not None:
+                acc.fail(fam + ":valid-rejected-by-load" + tagl, repr(lerr), case)
+            elif ver == V.INVALID and lerr is None:
+                acc.fail(fam + ":invalid-loaded" + tagl + ":" + reason.split(" (")[0],
+                         f"INVALID ({reason}) but tskit.load({lkw}) succeeded", case)
+            elif ver == V.VALID and ts is not None:
+                if not ts2.tables.equals(ts.tables, ignore_provenance=True):
+                    acc.fail(fam + ":load-differs" + tagl, "loaded tree sequence differs from tree_sequence()", case)
     if ver == V.VALID and ts is not None and fam.startswith("a"):
         # trees must be the reference ones
         from ..ref.trees import RefTS
